@@ -480,6 +480,12 @@ pub struct Inst {
     /// scalar type of integer tokens (for out-of-range deviations)
     pub int_types: Vec<Option<Sc>>,
     pub enum_positions: Vec<usize>,
+    /// (position behind the member chosen for a taggedunion, tokens of another member of the same
+    /// union): inserting the tokens there puts two members into a union that takes at most one
+    pub union_sites: Vec<(usize, Vec<Tok>)>,
+    /// nesting depth of arrays and inner repetitions during generation: inside them the next
+    /// element could absorb a surplus union member, so no union site is recorded there
+    pub rep_depth: usize,
 }
 
 impl Inst {
@@ -564,9 +570,11 @@ pub fn gen_instance_of(rng: &mut Rng, t: &AType, inst: &mut Inst) {
         }
         AType::CharArray(n) => inst.push(gen_string(rng, *n), Role::Required, None),
         AType::Array(inner, n) => {
+            inst.rep_depth += 1;
             for _ in 0..*n {
                 gen_instance_of(rng, inner, inst);
             }
+            inst.rep_depth -= 1;
         }
         AType::Enum { items, .. } => {
             let (name, _) = rng.pick(items);
@@ -594,8 +602,21 @@ pub fn gen_instance_of(rng: &mut Rng, t: &AType, inst: &mut Inst) {
         }
         AType::TaggedUnion { items, .. } => {
             if rng.chance(4, 5) {
-                let it = rng.pick(items);
-                gen_tagged(rng, it, inst);
+                let k = rng.below(items.len());
+                gen_tagged(rng, &items[k], inst);
+                if items.len() >= 2 && inst.rep_depth == 0 {
+                    let other = &items[(k + 1 + rng.below(items.len() - 1)) % items.len()];
+                    let mut tmp = Inst {
+                        toks: Vec::new(),
+                        roles: Vec::new(),
+                        int_types: Vec::new(),
+                        enum_positions: Vec::new(),
+                        union_sites: Vec::new(),
+                        rep_depth: 1,
+                    };
+                    gen_tagged(rng, other, &mut tmp);
+                    inst.union_sites.push((inst.toks.len(), tmp.toks));
+                }
             }
         }
     }
@@ -609,6 +630,7 @@ fn gen_tagged(rng: &mut Rng, it: &TItem, inst: &mut Inst) {
     if let Some(m) = &it.item {
         if it.inner_repeat {
             let n = rng.below(4);
+            inst.rep_depth += 1;
             for _ in 0..n {
                 let start = inst.toks.len();
                 gen_instance_of(rng, m, inst);
@@ -617,6 +639,7 @@ fn gen_tagged(rng: &mut Rng, it: &TItem, inst: &mut Inst) {
                     inst.roles[start] = Role::SeqElem;
                 }
             }
+            inst.rep_depth -= 1;
         } else {
             gen_instance_of(rng, m, inst);
         }
@@ -633,6 +656,8 @@ pub fn gen_instance(rng: &mut Rng, def: &Def) -> Inst {
         roles: Vec::new(),
         int_types: Vec::new(),
         enum_positions: Vec::new(),
+        union_sites: Vec::new(),
+        rep_depth: 0,
     };
     gen_instance_of(rng, &def.root, &mut inst);
     inst
@@ -644,7 +669,18 @@ pub fn deviate(rng: &mut Rng, inst: &Inst) -> Option<(Vec<Tok>, &'static str)> {
     let required: Vec<usize> = (0..inst.toks.len()).filter(|i| inst.roles[*i] == Role::Required).collect();
     let mut toks = inst.toks.clone();
     for _attempt in 0..8 {
-        match rng.below(5) {
+        match rng.below(6) {
+            5 => {
+                // a second member in a taggedunion (its tag occurs nowhere else in the definition)
+                if inst.union_sites.is_empty() {
+                    continue;
+                }
+                let (pos, extra) = &inst.union_sites[rng.below(inst.union_sites.len())];
+                for (k, t) in extra.iter().enumerate() {
+                    toks.insert(pos + k, t.clone());
+                }
+                return Some((toks, "second_member_in_taggedunion"));
+            }
             0 => {
                 // wrong token kind at a required position
                 let Some(&i) = required.get(rng.below(required.len().max(1))) else { continue };
